@@ -60,6 +60,7 @@ Record cfg := { cf_detect : bool; cf_maxcount : N; cf_maxsize : N; cf_vthr : N }
 
 Inductive err :=
 | EConflict | ETooBig | EBlocked | EReadOnly | EDiscarded | ECommitDiscarded
+| EApply      (* the commit worker could not apply the request (LSM / WAL append failed) *)
 | EBadOp      (* the driver used a slot wrongly (never generated) *)
 | EHang.      (* WaitForMark would block forever (never observed) *)
 
@@ -71,6 +72,7 @@ Inductive op :=
 | Discard (id : N)
 | Close
 | Reopen
+| FailWal                                          (* fault: from now on every LSM apply fails *)
 | Dump (k : bytes).                                (* all versions of a key, newest first *)
 
 Inductive out :=
@@ -202,17 +204,19 @@ Section Model.
     st_orc : oracle;
     st_txns : N -> option txn;
     st_closed : bool;
+    st_broken : bool;               (* injected fault: applyRequests fails *)
     st_hist : list hrec }.          (* ghost: committed writers, newest first *)
 
   Definition st_init : state :=
-    {| st_store := []; st_orc := orc_new; st_txns := fun _ => None; st_closed := false; st_hist := [] |}.
+    {| st_store := []; st_orc := orc_new; st_txns := fun _ => None; st_closed := false; st_broken := false;
+       st_hist := [] |}.
 
   Definition set_txn (f : N -> option txn) (id : N) (t : txn) : N -> option txn :=
     fun j => if j =? id then Some t else f j.
 
   Definition with_orc_txn (s : state) (o : oracle) (id : N) (t : txn) : state :=
     {| st_store := st_store s; st_orc := o; st_txns := set_txn (st_txns s) id t;
-       st_closed := st_closed s; st_hist := st_hist s |}.
+       st_closed := st_closed s; st_broken := st_broken s; st_hist := st_hist s |}.
 
   Definition entries_of (ts : N) (ws : kvs) : store :=
     map (fun kv => {| se_key := fst kv; se_ver := ts; se_val := snd kv |}) ws.
@@ -307,19 +311,26 @@ Section Model.
                     (with_orc_txn s o3 id dead_txn, OErr ETooBig)
                   else if st_closed s then
                     (with_orc_txn s o3 id dead_txn, OErr EBlocked)
+                  else if st_broken s then
+                    (* commitWorker: applyRequests fails for this request; finishCommitRequests
+                       reports the error to it; nothing reached the memtable *)
+                    (with_orc_txn s o3 id dead_txn, OErr EApply)
                   else
                     ({| st_store := entries_of ts ws ++ st_store s; st_orc := o3;
-                        st_txns := set_txn (st_txns s) id dead_txn; st_closed := false;
+                        st_txns := set_txn (st_txns s) id dead_txn; st_closed := false; st_broken := false;
                         st_hist := {| h_ts := ts; h_reads := t_log t; h_writes := ws |} :: st_hist s |},
                      OCommitted ts)
             end
         end
     | Close =>
         ({| st_store := st_store s; st_orc := st_orc s; st_txns := st_txns s; st_closed := true;
-            st_hist := st_hist s |}, OOk)
+            st_broken := st_broken s; st_hist := st_hist s |}, OOk)
     | Reopen =>
         ({| st_store := st_store s; st_orc := orc_init (max_ver (st_store s)); st_txns := fun _ => None;
-            st_closed := false; st_hist := st_hist s |}, OOk)
+            st_closed := false; st_broken := false; st_hist := st_hist s |}, OOk)
+    | FailWal =>
+        ({| st_store := st_store s; st_orc := st_orc s; st_txns := st_txns s; st_closed := st_closed s;
+            st_broken := true; st_hist := st_hist s |}, OOk)
     | Dump k =>
         (s, ODump (map (fun e => (se_ver e, se_val e)) (filter (fun e => bytes_eqb (se_key e) k) (st_store s))))
     end.
